@@ -110,6 +110,14 @@ class Run(object):
             self.w.write(obj)
             self.records.append(raw)
             return None
+        if op[0] == 'enter':
+            before = self.file_bytes()
+            got = self.w.__enter__()
+            if self.file_bytes() != before:
+                return 'entering the context manager changed the file'
+            if got is not self.w:
+                return '__enter__ did not return the writer'
+            return None
         before = self.file_bytes() if op[0] == 'exit_exc' else None
         if op[0] == 'close':
             self.w.close()
@@ -206,12 +214,17 @@ def replay(cfg, hist):
 
 def enabled(hist):
     nw = sum(1 for op in hist if op[0] == 'w')
-    nf = len(hist) - nw
+    ne = sum(1 for op in hist if op[0] == 'enter')
+    nf = len(hist) - nw - ne
     ops = []
     if nf == 0 and nw < MAX_WRITES:
         ops += [('w', i) for i in range(len(REC_SIZES))]
     if nf < MAX_FINALS:
         ops += [(f,) for f in FINALS]
+    # a with statement calls __enter__ before the block: allowed once before the writes and once between / after
+    # finalisations (re-using a writer in a second with block)
+    if ne < 2 and (not hist or hist[-1][0] != 'enter'):
+        ops.append(('enter',))
     return ops
 
 
@@ -228,7 +241,7 @@ def expand(batch):
                     acc.transitions += 1
                     acc.case((key, op), nontrivial=True, outcome=op[0])
                     if why:
-                        kind = 'first' if sum(1 for o in h2 if o[0] != 'w') == 1 else 'repeat'
+                        kind = 'first' if sum(1 for o in h2 if o[0] not in ('w', 'enter')) == 1 else 'repeat'
                         acc.viol('c11.%s.%s' % (kind, 'blocked' if cfg[1] else 'vbs'),
                                  {'cfg': list(cfg), 'hist': h2, 'seed': _SEED}, why,
                                  'file reads back as exactly the records written; later finalisations change nothing')
@@ -264,7 +277,9 @@ def run(tier, seed):
     caps = [acc.counters['bfs_cap_hit']] if 'bfs_cap_hit' in acc.counters else []
     desc = {
         'rule': 'BFS over histories write^m (m<=%d, record sizes %s incl. prefix+record = 1012 and > 1 block) followed '
-                'by up to %d finalisations from {close(), __exit__(None), __exit__(exception)} for {VbsWriter, '
+                'by up to %d finalisations from {close(), __exit__(None), __exit__(exception)}, with __enter__() allowed '
+                'twice anywhere (a with statement enters before it exits; a writer may be used in a second with '
+                'block), for {VbsWriter, '
                 'IpmWriter} x {VBS, 1014} x {BytesIO, real file w+b, real file wb}; state key = digest of file bytes, '
                 'file position, every writer and blocker attribute, lengths written, finalised?; every transition '
                 'is executed on a fresh writer rebuilt from the history. Oracle after every finalisation: reference '
@@ -291,7 +306,7 @@ def replay_case(case):
         if _TMP and os.path.isdir(_TMP):
             shutil.rmtree(_TMP, ignore_errors=True)
     if why:
-        kind = 'first' if sum(1 for o in case['hist'] if o[0] != 'w') == 1 else 'repeat'
+        kind = 'first' if sum(1 for o in case['hist'] if o[0] not in ('w', 'enter')) == 1 else 'repeat'
         acc.viol('c11.%s.%s' % (kind, 'blocked' if case['cfg'][1] else 'vbs'), case, why)
     return acc
 
